@@ -114,6 +114,9 @@ def run(rep, tier, driver):
     # strings observed inside the real merge_int of these written orders
     import mergex
     mergex.run(rep, tier, driver, [s for s, r in zip(jobs, res) if r[0] == "ok" and r[1]][: (150 if tier == "quick" else 3000)], wellformed=True)
+    # … and the binding plan of every written order (which sibling gets which marker pair, C01_sibling_slots_distinct)
+    import planx
+    planx.run(rep, tier, driver, [s for s, r in zip(jobs, res) if r[0] == "ok" and r[1]][: (200 if tier == "quick" else 4000)])
 
 
 def replay(body):
